@@ -20,7 +20,8 @@ EXPLANATION = (
     "running data; ParallelFilter sums freq_response, takes numpoly and denpoly as projections of one and the "
     "same reduction, shares its input through thub(args[0], len(self)) and adds the branch outputs; "
     "(C05.linearize) the two weights of a fractional delay sum to one and interpolate the delay exactly. "
-    "Does not decide outputs on signals nor the ring laws of Poly (C07).")
+    "Does not decide outputs on signals nor the ring laws of Poly (C07)."
+    " Also: C05.dispatch (decision tables): which arm of ZFilter + * / **, the reflected operators, __eq__, __call__, ParallelFilter.__call__, callables and the numpoly/denpoly/poles/zeros guards runs for which kind of operand. ")
 
 UNDECIDED = ["(f*g)(x) = f(g(x)) on signals (follows from C04 given these identities, not re-proved here)",
              "field laws on concrete coefficient values (Poly arithmetic is C07)"]
